@@ -142,5 +142,6 @@ contract("jellyfysh.event_handler.abstracts.abstracts:SingleActiveLeafUnitEventH
                   # it is the ONLY leaf unit with a velocity
                   "forall(0, len(self._leaf_units), lambda j: implies(self._leaf_units[j].velocity is not None, "
                   "j == self._active_leaf_unit_index))"],
-         canary="self._active_leaf_unit_index == 0", native_search=False,
-         note="the active leaf unit is the unique leaf unit with a velocity (AssertionError otherwise)")
+         canary="self._active_leaf_unit_index == 0", native_search=False, ghost={"unit_only": True},
+         note="the active leaf unit is the unique leaf unit with a velocity (AssertionError otherwise); verified as a unit "
+              "of its own - call sites use the interface contract whose first clauses this proves")
